@@ -17,12 +17,12 @@ SEQ_ASSUME = ["calculators depend on (key, value, current duration) only; creati
 
 MAINT = dict(engine="maint", scale_quick=5, scale_thorough=20, timeout_quick=900, timeout_thorough=6000)
 MAINT_RULE = ("maint engine: the seq engine restricted to one index action per operation (no bulk/refresh/InvalidateAll), size- or weight-bounded and/or "
-              "expiring caches with maxima <= 12 so that the hill climber's floating-point step is zero, 4-8 keys; the hook at the start of cache.maintenance marks "
+              "expiring caches, 4-8 keys and maxima <= 12 (the hill climber's amount truncates to zero) in five cases out of six; every sixth case has a maximum of 16-96, heterogeneous weights (0-9), 1400-2000 operations and alternating phases of few keys (hits) and many keys (misses), so that the climber's sampled hit rate rises and falls and its amount - read at value hook 11 in policy.climb and passed to the model as an input of that maintenance run - moves entries between window, probation and protected; the hook at the start of cache.maintenance marks "
               "every maintenance run; in a third of the cases queued maintenance is run rarely so that write events pile up, and the write buffer is then re-queued in another order (swap / reverse / shuffle, "
               "export VerifPermuteWriteBuffer) as when the writers are different goroutines; the extracted Maint/Policy/Wheel/Sketch model replays tasks, read buffer, sweeps and evictions in a closed loop (no oracle "
               "input except key hashes and the window/protected maxima) and is compared after every operation on all deques, counters, wheel buckets and node states; "
               "every automatic removal must be predicted exactly; C04/C05/C13 view oracles are evaluated on the implementation at every quiescent point")
-MAINT_ASSUME = ["single goroutine; the read buffer is one ring (no contention)", "maxima <= 12: hill-climber adjustment is 0 (floating point not modelled)",
+MAINT_ASSUME = ["single goroutine; the read buffer is one ring (no contention)", "the hill climber's amount and the initial window/protected maxima are inputs read from the implementation (floating point); what is then moved is the model's",
                 "window / protected maxima are read from the implementation after SetMaximum (floating point)"]
 
 STRIPE = dict(engine="stripe", scale_quick=3, scale_thorough=30, timeout_quick=600, timeout_thorough=3000)
